@@ -1,6 +1,7 @@
 import PsModel.Util.Sexp
 import PsModel.Model.C03
 import PsModel.Spec.C03
+import PsModel.Spec.C03Scope
 /-! line-protocol front end of the C03 binding model:
 `C03 (bind (posonly…) (args…) ndefaults ((k hasD)…) vararg kwarg (argvals…) ((key val)…))` → `model=… spec=…` -/
 namespace PsModel.C03
@@ -21,6 +22,48 @@ def showBound : Option Bound → String
 
 def strs? (x : Sexp) : Option (List String) := Sexp.listOf? Sexp.str? x
 
+def showWhere : Where → String
+  | .local => "local"
+  | .cell d => s!"cell{d}"
+  | .global => "global"
+
+def scope? (x : Sexp) : Option FnScope :=
+  match x with
+  | .list [p, b, g, n, m] => do
+    pure { params := ← strs? p, binds := ← strs? b, globals := ← strs? g, nonlocals := ← strs? n, mentions := ← strs? m }
+  | _ => none
+
+/-- fuel only bounds the nesting depth of the S-expression reader -/
+def tgt? : Nat → Sexp → Option Tgt
+  | 0, _ => none
+  | _, .atom "other" => some .other
+  | _, .atom x => some (.name x)
+  | f + 1, .list (.atom "tuple" :: ts) => (Sexp.mapM? (tgt? f) ts).map .tuple
+  | f + 1, .list (.atom "list" :: ts) => (Sexp.mapM? (tgt? f) ts).map .list
+  | f + 1, .list [.atom "starred", t] => (tgt? f t).map .starred
+  | _, _ => none
+
+def kind? : String → Option Kind
+  | "assign" => some .assign | "aug" => some .aug | "ann" => some .ann | "for" => some .forT | "with" => some .withT
+  | "walrus" => some .walrus | "handler" => some .handler | "def" => some .defName | "class" => some .className
+  | "del" => some .del | "import" => some .importN | "comp" => some .compVar | "plain" => some .plain
+  | _ => none
+
+mutual
+def stmt? : Nat → Sexp → Option Stmt
+  | 0, _ => none
+  | f + 1, .list [.atom k, .list ts, body] => do
+    pure (.node (← kind? k) (← Sexp.mapM? (tgt? 32) ts) (← stmts? f body))
+  | _, _ => none
+def stmts? : Nat → Sexp → Option (List Stmt)
+  | 0, _ => none
+  | f + 1, .list xs => Sexp.mapM? (stmt? f) xs
+  | _, _ => none
+end
+
+def showNames (xs : List String) : String :=
+  ",".intercalate (xs.eraseDups.toArray.qsort (· < ·)).toList
+
 def handle (x : Sexp) : String :=
   match x with
   | .list [.atom "bind", po, ar, nd, ko, va, kwa, avals, kws] =>
@@ -32,6 +75,14 @@ def handle (x : Sexp) : String :=
       let s : Sig := { posonly := po, args := ar, ndefaults := nd, kwonly := ko, vararg := va, kwarg := kwa }
       s!"model={showBound (PS.bind Current.cfg Gen.TRIGGER_KWARGS s avals kws)} spec={showBound (Spec.bind s avals kws)}"
     | _, _, _, _, _, _, _, _ => "err parse"
+  | .list [.atom "resolve", .atom x, sc, ch] =>
+    match scope? sc, Sexp.listOf? scope? ch with
+    | some s, some chain => s!"model={showWhere (PS.resolve Current.scopeCfg s chain x)} spec={showWhere (Py.resolve s chain x)}"
+    | _, _ => "err parse"
+  | .list [.atom "locals", body] =>
+    match stmts? 64 body with
+    | some b => s!"model={showNames (PS.localsL Current.bindCfg b)} spec={showNames (Py.localsL b)}"
+    | none => "err parse"
   | _ => "err bad-command"
 
 end PsModel.C03
